@@ -152,6 +152,22 @@ Definition norm_bwd (code : nat) (lam y : T) : T :=
   | _ => npow O (nadd O (n1 O) (nmul O y lam)) (ndiv O (n1 O) lam)
   end.
 
+(* ---------- krige/tools.get_drift_functions: the polynomial drift basis of order k in dim coordinates:
+   for d = 1..k the monomials x_{i1}*...*x_{id} with i1 <= ... <= id, in the order of
+   itertools.combinations_with_replacement(range(dim), d); _f_factory evaluates ((1.0*x_{i1})*x_{i2})*... *)
+Fixpoint cwr (dim k lo : nat) : list (list nat) :=
+  match k with
+  | 0 => [[]]
+  | S k' => flat_map (fun i => map (cons i) (cwr dim k' i)) (seq lo (dim - lo))
+  end.
+Definition drift_selects (dim order : nat) : list (list nat) :=
+  flat_map (fun d => cwr dim (S d) 0) (seq 0 order).
+Definition monomial (pos : list (list T)) (sel : list nat) (t : nat) : T :=
+  fold_left (fun acc i => nmul O acc (aget2 z pos i t)) sel (n1 O).
+(* rows: monomial l at point t of the (dim x m) position array *)
+Definition poly_drifts (dim order m : nat) (pos : list (list T)) : list (list T) :=
+  map (fun sel => map (fun t => monomial pos sel t) (seq 0 m)) (drift_selects dim order).
+
 (* ---------- structured meshes: generate_grid = cartesian product in C order *)
 Fixpoint grid (axes : list (list T)) : list (list T) :=
   match axes with
